@@ -96,12 +96,13 @@ def mypy_expression_to_sds_type(expr: mp_nodes.Expression) -> sds_types.Abstract
     if isinstance(expr, mp_nodes.NameExpr):
         if expr.name in {"False", "True"}:
             return sds_types.NamedType(name="bool", qname="builtins.bool")
-        elif expr.name == "None" or not isinstance(
-            expr.node,
-            mp_nodes.Var | mp_nodes.FuncBase | mp_nodes.Decorator | mp_nodes.MypyFile,
+        elif expr.name == "None" or not (
+            isinstance(expr.node, mp_nodes.Var | mp_nodes.FuncBase | mp_nodes.Decorator | mp_nodes.MypyFile)
+            or "@" in expr.fullname
         ):
             return sds_types.NamedType(name=expr.name, qname=expr.fullname)
-        # The name of a variable, parameter, function or module is not the type of its value
+        # The name of a variable, parameter, function or module is not the type of its value, and a class that is
+        # defined inside of a function ("Name@line") cannot be referenced
     elif isinstance(expr, mp_nodes.IntExpr):
         return sds_types.NamedType(name="int", qname="builtins.int")
     elif isinstance(expr, mp_nodes.FloatExpr):
